@@ -451,6 +451,8 @@ class Gen:
             op['spec'] = {'raw': r.choice(badops.BAD_STRING_SPECS if self.oracle.prop == 'C12' else badops._BAD_SPECS)}
         if r.random() < 0.5:
             op['flags'] = [r.random() < 0.5, r.random() < 0.5, r.random() < 0.5]
+            if not op['spec'] and r.random() < 0.5:
+                op['pass_empty'] = True    # to_str('') instead of to_str(None)
         return op
 
     def g_render(self, world):
